@@ -60,6 +60,14 @@ int main(int argc, char **argv) {
   }
   // helper mode for the cross-process lock probe (C20): try to open an existing database, report through the exit code
   for (int i = 1; i + 1 < argc; i++) {
+    if (std::string(argv[i]) == "--locktest") {
+      // take and release the directory's LOCK the way lcdb does, without opening the database
+      std::string lockname = std::string(argv[i + 1]) + "/LOCK";
+      ldb_filelock_t *lk = nullptr;
+      int lrc = ldb_lock_file(lockname.c_str(), &lk);
+      if (lrc == LDB_OK) { ldb_unlock_file(lk); _exit(7); }
+      _exit(0);
+    }
     if (std::string(argv[i]) == "--lockprobe") {
       DbConfig pc;
       for (int j = 1; j + 1 < argc; j++) if (std::string(argv[j]) == "--cmp") pc.cmp = argv[j + 1];
